@@ -121,8 +121,11 @@ def handleAsync (j : Json) : Except String Json := do
       | none => Json.null
     let fut := match st with | some st => natsJ st.futured | none => Json.null
     let tbl := match st with | some st => tablesJ c.wf.g.nodes st.ns | none => Json.null
+    let outs := match st with
+      | some st => Json.arr (c.wf.g.nodes.map (fun n => natsJ (outputs c.wf st n))).toArray
+      | none => Json.null
     return Json.mkObj ([("sorted", natsJ sorted), ("rounds", Json.arr rounds), ("status", Json.str status),
-      ("truth", truth), ("maxlocked", toJson mx), ("futured", fut), ("final_tables", tbl)]
+      ("truth", truth), ("maxlocked", toJson mx), ("futured", fut), ("final_tables", tbl), ("outputs", outs)]
       ++ (match o with | some o => outcomeJ o | none => []))
 
 def handleSync (j : Json) : Except String Json := do
@@ -138,7 +141,8 @@ def handleSync (j : Json) : Except String Json := do
       | .raised x => ("raised", [("raised", toJson x)])
       | .outOfFuel => ("outOfFuel", [])
     return Json.mkObj ([("sorted", natsJ sorted), ("outcome", Json.str oc), ("ran", natsJ st.futured),
-      ("tables", tablesJ c.wf.g.nodes st.ns)] ++ extra)
+      ("tables", tablesJ c.wf.g.nodes st.ns),
+      ("outputs", Json.arr (c.wf.g.nodes.map (fun n => natsJ (outputs c.wf st n))).toArray)] ++ extra)
 
 def handle (j : Json) : Json :=
   let r : Except String Json := do
